@@ -397,6 +397,113 @@ fn check_sub(c: &Case, mem: Option<&Guarded>) -> Result<(), String> {
     Ok(())
 }
 
+// ---------------------------------------------------------------- allocation counter (C17)
+struct Counting;
+static ALLOCS: std::sync::atomic::AtomicUsize = std::sync::atomic::AtomicUsize::new(0);
+unsafe impl std::alloc::GlobalAlloc for Counting {
+    unsafe fn alloc(&self, l: std::alloc::Layout) -> *mut u8 {
+        ALLOCS.fetch_add(1, std::sync::atomic::Ordering::Relaxed);
+        std::alloc::System.alloc(l)
+    }
+    unsafe fn dealloc(&self, p: *mut u8, l: std::alloc::Layout) {
+        std::alloc::System.dealloc(p, l)
+    }
+    unsafe fn alloc_zeroed(&self, l: std::alloc::Layout) -> *mut u8 {
+        ALLOCS.fetch_add(1, std::sync::atomic::Ordering::Relaxed);
+        std::alloc::System.alloc_zeroed(l)
+    }
+    unsafe fn realloc(&self, p: *mut u8, l: std::alloc::Layout, n: usize) -> *mut u8 {
+        ALLOCS.fetch_add(1, std::sync::atomic::Ordering::Relaxed);
+        std::alloc::System.realloc(p, l, n)
+    }
+}
+#[global_allocator]
+static GLOBAL: Counting = Counting;
+
+/// C17: none of the searching API calls may allocate (the replayer is single-threaded, so the counter is exact)
+fn check_alloc(c: &Case) -> Result<(), String> {
+    use memchr::{arch, memmem};
+    let mut buf = Vec::new();
+    let h = place(&mut buf, &c.h, c.align);
+    let n = &c.n[..];
+    let (n1, n2, n3) = (*n.get(0).unwrap_or(&b'a'), *n.get(1).unwrap_or(&b'b'), *n.get(2).unwrap_or(&b'c'));
+    let mut acc = 0usize; // keeps the calls alive
+    let mut what = "";
+    let before = ALLOCS.load(std::sync::atomic::Ordering::Relaxed);
+    macro_rules! step {
+        ($name:expr, $e:expr) => {{
+            let a0 = ALLOCS.load(std::sync::atomic::Ordering::Relaxed);
+            let r = $e;
+            if ALLOCS.load(std::sync::atomic::Ordering::Relaxed) != a0 && what.is_empty() {
+                what = $name;
+            }
+            r
+        }};
+    }
+    acc += step!("memchr", memchr::memchr(n1, h)).unwrap_or(0);
+    acc += step!("memchr2", memchr::memchr2(n1, n2, h)).unwrap_or(0);
+    acc += step!("memchr3", memchr::memchr3(n1, n2, n3, h)).unwrap_or(0);
+    acc += step!("memrchr", memchr::memrchr(n1, h)).unwrap_or(0);
+    acc += step!("memrchr2", memchr::memrchr2(n1, n2, h)).unwrap_or(0);
+    acc += step!("memrchr3", memchr::memrchr3(n1, n2, n3, h)).unwrap_or(0);
+    acc += step!("memchr_iter", { let mut k = 0; for p in memchr::memchr_iter(n1, h) { k += p } k });
+    acc += step!("memchr2_iter", { let mut k = 0; for p in memchr::memchr2_iter(n1, n2, h).rev() { k += p } k });
+    acc += step!("memchr3_iter", { let mut k = 0; for p in memchr::memchr3_iter(n1, n2, n3, h) { k += p } k });
+    acc += step!("memchr_iter.count", memchr::memchr_iter(n1, h).count());
+    acc += step!("memrchr_iter", { let mut k = 0; for p in memchr::memrchr_iter(n1, h) { k += p } k });
+    acc += step!("arch::all::memchr::One", { let f = arch::all::memchr::One::new(n1); f.find(h).unwrap_or(0) + f.rfind(h).unwrap_or(0) + f.count(h) + f.iter(h).count() });
+    acc += step!("arch::all::memchr::Two", { let f = arch::all::memchr::Two::new(n1, n2); f.find(h).unwrap_or(0) + f.rfind(h).unwrap_or(0) + f.iter(h).count() });
+    acc += step!("arch::all::memchr::Three", { let f = arch::all::memchr::Three::new(n1, n2, n3); f.find(h).unwrap_or(0) + f.rfind(h).unwrap_or(0) + f.iter(h).count() });
+    #[cfg(target_arch = "x86_64")]
+    {
+        use memchr::arch::x86_64::{avx2, sse2};
+        acc += step!("sse2::memchr::One", sse2::memchr::One::new(n1).map(|f| f.find(h).unwrap_or(0) + f.rfind(h).unwrap_or(0) + f.count(h)).unwrap_or(0));
+        acc += step!("avx2::memchr::One", avx2::memchr::One::new(n1).map(|f| f.find(h).unwrap_or(0) + f.rfind(h).unwrap_or(0) + f.count(h)).unwrap_or(0));
+        acc += step!("sse2::memchr::Three", sse2::memchr::Three::new(n1, n2, n3).map(|f| f.find(h).unwrap_or(0) + f.rfind(h).unwrap_or(0)).unwrap_or(0));
+        acc += step!("avx2::memchr::Two", avx2::memchr::Two::new(n1, n2).map(|f| f.find(h).unwrap_or(0) + f.rfind(h).unwrap_or(0)).unwrap_or(0));
+        acc += step!("sse2::packedpair::Finder", sse2::packedpair::Finder::new(n).map(|f| {
+            if h.len() >= f.min_haystack_len() { f.find(h, n).unwrap_or(0) + f.find_prefilter(h).unwrap_or(0) } else { 0 }
+        }).unwrap_or(0));
+        acc += step!("avx2::packedpair::Finder", avx2::packedpair::Finder::new(n).map(|f| {
+            if h.len() >= f.min_haystack_len() { f.find(h, n).unwrap_or(0) + f.find_prefilter(h).unwrap_or(0) } else { 0 }
+        }).unwrap_or(0));
+    }
+    acc += step!("memmem::find", memmem::find(h, n)).unwrap_or(0);
+    acc += step!("memmem::rfind", memmem::rfind(h, n)).unwrap_or(0);
+    acc += step!("memmem::find_iter", { let mut k = 0; for p in memmem::find_iter(h, n) { k += p } k });
+    acc += step!("memmem::rfind_iter", { let mut k = 0; for p in memmem::rfind_iter(h, n) { k += p } k });
+    acc += step!("memmem::Finder::new + find + find_iter", {
+        let f = memmem::Finder::new(n);
+        let g = f.as_ref();
+        let mut k = f.find(h).unwrap_or(0) + g.find(h).unwrap_or(0) + f.needle().len();
+        for p in f.find_iter(h) { k += p }
+        k
+    });
+    acc += step!("memmem::FinderRev::new + rfind + rfind_iter", {
+        let f = memmem::FinderRev::new(n);
+        let g = f.as_ref();
+        let mut k = f.rfind(h).unwrap_or(0) + g.rfind(h).unwrap_or(0) + f.needle().len();
+        for p in f.rfind_iter(h) { k += p }
+        k
+    });
+    acc += step!("memmem::FinderBuilder (no prefilter)", {
+        let mut b = memmem::FinderBuilder::new();
+        b.prefilter(memmem::Prefilter::None);
+        b.build_forward(n).find(h).unwrap_or(0) + b.build_reverse(n).rfind(h).unwrap_or(0)
+    });
+    acc += step!("memmem::FinderBuilder (custom ranker)", memmem::FinderBuilder::new().build_forward_with_ranker(ConstRank(c.variant as u8), n).find(h).unwrap_or(0));
+    acc += step!("arch::all::twoway", arch::all::twoway::Finder::new(n).find(h, n).unwrap_or(0) + arch::all::twoway::FinderRev::new(n).rfind(h, n).unwrap_or(0));
+    acc += step!("arch::all::rabinkarp", arch::all::rabinkarp::Finder::new(n).find(h, n).unwrap_or(0) + arch::all::rabinkarp::FinderRev::new(n).rfind(h, n).unwrap_or(0));
+    acc += step!("arch::all::packedpair", arch::all::packedpair::Finder::new(n).map(|f| f.find_prefilter(h).unwrap_or(0)).unwrap_or(0));
+    acc += step!("arch::all::is_prefix/is_suffix/is_equal", arch::all::is_prefix(h, n) as usize + arch::all::is_suffix(h, n) as usize + arch::all::is_equal(h, n) as usize);
+    let after = ALLOCS.load(std::sync::atomic::Ordering::Relaxed);
+    std::hint::black_box(acc);
+    if after != before {
+        return Err(format!("{} heap allocation(s) during searching calls; first in: {}", after - before, what));
+    }
+    Ok(())
+}
+
 fn gen_case(family: &str, rng: &mut Rng, k: u64) -> Case {
     let variant = rng.below(1 << 12);
     let align = rng.below(64);
@@ -530,6 +637,7 @@ fn gen_case(family: &str, rng: &mut Rng, k: u64) -> Case {
 fn run_case(family: &str, c: &Case, mem: Option<&Guarded>) -> Result<(), String> {
     let r = catch_unwind(AssertUnwindSafe(|| match family {
         "byte" | "bytemem" => check_byte(c, mem),
+        "alloc" => check_alloc(c),
         _ => check_sub(c, mem),
     }));
     match r {
